@@ -29,7 +29,7 @@ class ExpressionParser(SubParser):
             self.next_token()
             if not self.expression():
                 return False
-            if self.current_token != ')':
+            if not self.current_token.is_mark(')'):
                 return self.token_error('Unmatched parenthesis: {}')
             return self.next_token()
 
